@@ -18,12 +18,14 @@ import (
 type c15Arg struct {
 	Size uint64 `json:"size"`
 	Fill bool   `json:"fill"`
+	Inos bool   `json:"inos,omitempty"` // also use up the inode table
 }
 
 type c15Res struct {
 	Accepted bool                `json:"accepted"`
 	Filled   bool                `json:"filled"`
 	Blocks   uint64              `json:"blocks"`
+	Inodes   uint64              `json:"inodes,omitempty"` // objects created when the inode table was used up
 	Viols    []*report.Violation `json:"viols"`
 	Steps    int64               `json:"steps"`
 }
@@ -196,6 +198,44 @@ func c15Job(raw json.RawMessage) (interface{}, error) {
 			viol("free|"+ruleOf(e), e)
 		}
 		out.Filled = true
+		if !a.Inos {
+			return
+		}
+		// the inode table: every number but the two reserved ones can be handed out - no more, and none outside the table
+		w.Do(fsx.Op{K: "MKDIR", H: "root", N: "bulk"})
+		n := uint64(1)
+		var last fsx.Reply
+		for ; n < 40000; n++ {
+			last, _, _ = w.Do(fsx.Op{K: "CREATE", H: "root/bulk", N: fmt.Sprintf("i%05d", n), As: "_"})
+			if !last.OK() {
+				break
+			}
+			if last.Attr != nil && (last.Attr.Fileid < 2 || last.Attr.Fileid >= L.NInode) {
+				viol("inodes|outside", fmt.Sprintf("CREATE number %d got inode %d, the table has %d", n, last.Attr.Fileid, L.NInode))
+				return
+			}
+		}
+		if n != L.NInode-2 || last.Status != 28 {
+			viol("inodes|count", fmt.Sprintf("%d objects could be created (last status %d); the inode table has %d numbers, two of them reserved", n, last.Status, L.NInode))
+			return
+		}
+		out.Inodes = n
+		vrt.Quiesce()
+		fr4 := w.Fsck()
+		for _, e := range fr4.Errors {
+			viol("inodes|"+ruleOf(e), e)
+		}
+		for _, e := range w.Audit(fr4) {
+			viol("inodes|"+ruleOf(e), e)
+		}
+		if m := w.DeleteAll(); m != nil {
+			viol("inodes|free|"+m.Rule, m.Msg)
+			return
+		}
+		vrt.Quiesce()
+		if fb3, fi3 := w.FreeCounts(); fb3 != w.FreshB || fi3 != w.FreshI {
+			viol("inodes|free|not-restored", fmt.Sprintf("after deleting everything %d blocks / %d inodes free, fresh values %d / %d", fb3, fi3, w.FreshB, w.FreshI))
+		}
 	})
 	if v := VerdictViolation(&res, "C15", "use"); v != nil {
 		viol(v.Sig, v.Detail)
@@ -226,7 +266,13 @@ func C15(r *report.Report, tier string) {
 	}
 	add(10000, true)
 	add(102400, true)
-	r.Rule = "every disk size in [1530,1700] (the smallest accepted size is found, not assumed: a panic in MakeNfs = not accepted) and in [k*32768-40, k*32768+40] for k=1..3, [k*32768-3, k*32768+3] for k=4..8, plus 10000 and 102400 (a panic while formatting other than the documented refusal is a violation): regions log | block bitmap | inode bitmap | inode table | data adjacent, non-empty, inside the disk and equal to an independent computation; fresh image: fsck clean, data-region bitmap bits == blocks of the root directory, inode bits == {0,1}, allocators == bitmaps; fill (every size below 1700, +-2 around each bitmap-block boundary, the two large sizes; thorough: every size): WRITE until no space, then the allocator has 0 free blocks, fsck is clean, every data block - no block less, none outside - is owned; delete everything: free counts return to the fresh values. distinct_nontrivial = accepted sizes"
+	// the inode table used up as well (32766 objects): the smallest size that can hold them, and around the second bitmap block
+	for _, sz := range []uint64{4000, 32767, 32768, 32770, 65537} {
+		if tier == "thorough" || sz != 65537 {
+			jobs = append(jobs, c15Arg{Size: sz, Fill: true, Inos: true})
+		}
+	}
+	r.Rule = "every disk size in [1530,1700] (the smallest accepted size is found, not assumed: a panic in MakeNfs = not accepted) and in [k*32768-40, k*32768+40] for k=1..3, [k*32768-3, k*32768+3] for k=4..8, plus 10000 and 102400 (a panic while formatting other than the documented refusal is a violation): regions log | block bitmap | inode bitmap | inode table | data adjacent, non-empty, inside the disk and equal to an independent computation; fresh image: fsck clean, data-region bitmap bits == blocks of the root directory, inode bits == {0,1}, allocators == bitmaps; fill (every size below 1700, +-2 around each bitmap-block boundary, the two large sizes; thorough: every size): WRITE until no space, then the allocator has 0 free blocks, fsck is clean, every data block - no block less, none outside - is owned; delete everything: free counts return to the fresh values; for the sizes 4000, 32767, 32768, 32770 (thorough: 65537) objects are then created until the server refuses: exactly the table's numbers minus the two reserved ones, none outside, fsck and allocator audit, everything deleted again. distinct_nontrivial = accepted sizes"
 	accepted, minAcc := 0, uint64(0)
 	par.Map("c15", jobs, par.Options{Deadline: Deadline}, func(i int, res *par.Result) {
 		if res.Skipped {
